@@ -47,6 +47,8 @@ def generate(spec, wd, ns="gen", name="filter", kind="ekf", config=None, quiet=T
     source = os.path.join(wd, "generated", ns, f"{name}.cpp")
     tab = models.symtab(spec)
     cfg = models.cpp_config(spec) if config is None else config  # a dict, or a caller-owned cpp.Config instance
+    if config is None and spec.get("config_form") == "swapped":
+        cfg = cpp.Config(**cfg)
     old_argv = sys.argv
     sys.argv = ["generator.py", "--header", header, "--source", source, "--namespace", ns]
     buf = io.StringIO()
